@@ -1662,8 +1662,9 @@ def translate_frame(src):
                "def fromUsartBody %s :=\n  fromUsartModelBody fr\n" % (str(ex).replace("-/", ""), sig))
     ctext, cmissing = translate_can(src)
     etext, emissing = translate_can_enc(src)
-    missing = missing + cmissing + emissing
-    out = out + "\n" + ctext + "\n" + etext
+    utext, umissing = translate_usart_enc(src)
+    missing = missing + cmissing + emissing + umissing
+    out = out + "\n" + ctext + "\n" + etext + "\n" + utext
     text = ("import RossModel.Spec.SrcPrims\n"
             "/-! GENERATED by bin/extract (bin/rust2lean.py) from src/frame.rs of the repository under verification — do not edit.\n"
             "Every run of a check regenerates this file from /repo's working tree before building the theorems. -/\n"
@@ -1870,6 +1871,66 @@ def translate_can_enc(src):
         return ("/-- translated from `Frame::to_bxcan_frame` in src/frame.rs -/\ndef toCan %s :=\n%s\n" % (sig, text)), []
     except (Untranslatable, KeyError, TypeError, IndexError) as ex:
         return ("/-- `Frame::to_bxcan_frame` could not be translated on this run (%s): this is the hand-written model's definition -/\ndef toCan %s :=\n  Ross.toCan f\n" % (str(ex).replace("-/", ""), sig)), ["to_bxcan_frame"]
+
+
+# ---------------------------------------------------------------- frame encoder (src/frame.rs): to_usart_frame
+
+class UsartEncTranslator(CanEncTranslator):
+    """translates `Frame::to_usart_frame`. The vector `frame` starts as `data_len + 5` zero bytes; the five header bytes are only
+    touched through constant indices (`frame[k] |= e`, `frame[k] = e`, k < 5), so they are five accumulators `b0 … b4` (rebound at
+    every statement); the copy loop `for i in 0..data_len { frame[i + 5] = self.data[i]; }` and the COBS call at the end are the
+    recognised tail: the body is the five bytes followed by the first `data_len` data bytes (a panic when `data_len` exceeds the
+    array), encoded by the model's `Cobs.encode` (the `cobs` crate is modelled)."""
+
+    def stmts(self, ss, env, ind):
+        if not ss:
+            raise Untranslatable("fell off the end")
+        s, rest = ss[0], ss[1:]
+        if s[0] in ("orassign", "assign") and s[1][0] == "path" and len(s[1][1]) == 1 and env.get(s[1][1][0], (None, None))[1] == "u8" and s[1][1][0] in ("b0", "b1", "b2", "b3", "b4"):
+            v = s[1][1][0]
+
+            def k(t, ty):
+                if ty not in ("u8", "int"):
+                    raise Untranslatable("byte of type " + ty)
+                return "%slet %s := %s\n%s" % (ind, v, "(%s ||| %s)" % (v, t) if s[0] == "orassign" else t, self.stmts(rest, env, ind))
+            return ind + self.num(s[2], env, k).lstrip()
+        if s[0] in ("tail", "return", "do") and not rest and s[1] == ("call", ("path", ["__usart"]), []):
+            return ("%sif f.data.length < f.dataLen then .panic else\n%s.ok (Cobs.encode ([UInt8.ofNat b0, UInt8.ofNat b1, UInt8.ofNat b2, UInt8.ofNat b3, UInt8.ofNat b4] ++ f.data.take f.dataLen))" % (ind, ind))
+        raise Untranslatable("statement " + s[0])
+
+
+def translate_usart_enc(src):
+    sig = "(f : Frame) : Res FErr (List UInt8)"
+    try:
+        m = re.search(r"pub fn to_usart_frame\s*\(\s*&self\s*\)\s*->\s*Vec<u8>\s*\{", src)
+        if not m:
+            raise Untranslatable("signature")
+        i, depth = m.end() - 1, 0
+        for j in range(i, len(src)):
+            depth += src[j] == "{"
+            depth -= src[j] == "}"
+            if depth == 0:
+                break
+        body = re.sub(r"//[^\n]*", "", src[i:j + 1])
+        body, n0 = re.subn(r"let\s+mut\s+frame\s*=\s*vec!\[0x00u8;\s*self\.data_len\s+as\s+usize\s*\+\s*5\];", "", body)
+        body, n1 = re.subn(r"for\s+(\w+)\s+in\s+0\.\.self\.data_len\s+as\s+usize\s*\{\s*frame\[\1\s*\+\s*5\]\s*=\s*self\.data\[\1\];\s*\}\s*"
+                           r"let\s+mut\s+encoded\s*=\s*vec!\[0;\s*max_encoding_length\(frame\.len\(\)\)\];\s*let\s+encoded_len\s*=\s*encode\(&frame\[\.\.\],\s*&mut\s+encoded\[\.\.\]\);\s*"
+                           r"encoded\.truncate\(encoded_len\);\s*return\s+encoded;", "__usart()", body)
+        if n0 != 1 or n1 != 1:
+            raise Untranslatable("allocation, copy loop or COBS call not in the recognised form")
+        body = re.sub(r"frame\[([0-4])\]", r"b\1", body)
+        if "frame" in body.replace("frame_id", "").replace("frame_flag", ""):
+            raise Untranslatable("the byte vector is used in another way")
+        body = re.sub(r"match\s+self\.frame_id\s*\{\s*FrameId::LastFrameId\((\w+)\)\s*=>\s*(\w+)\s*\|=\s*([^,{}]+?),\s*FrameId::CurrentFrameId\(\1\)\s*=>\s*\2\s*\|=\s*([^,{}]+?),?\s*\}",
+                      lambda mm: "%s |= __sel(%s, %s);" % (mm.group(2), mm.group(3).replace(mm.group(1), "__fid"), mm.group(4).replace(mm.group(1), "__fid")), body)
+        env = {"__fid": ("f.fid", "u16")}
+        for k in range(5):
+            env["b%d" % k] = ("b%d" % k, "u8")
+        text = UsartEncTranslator().stmts(BitParser2(tokenize2(body)).block(), env, "  ")
+        text = "".join("  let b%d := 0\n" % k for k in range(5)) + "\n".join(l if l.startswith(" ") else "  " + l for l in text.split("\n"))
+        return ("/-- translated from `Frame::to_usart_frame` in src/frame.rs (`b0 … b4` are the five header bytes of the vector) -/\ndef toUsart %s :=\n%s\n" % (sig, text)), []
+    except (Untranslatable, KeyError, TypeError, IndexError) as ex:
+        return ("/-- `Frame::to_usart_frame` could not be translated on this run (%s): this is the hand-written model's definition -/\ndef toUsart %s :=\n  Ross.toUsart f\n" % (str(ex).replace("-/", ""), sig)), ["to_usart_frame"]
 
 
 if __name__ == "__main__":
